@@ -274,3 +274,49 @@ def class_methods(prog, cls, stop_at=None):
         if stop_at is not None and k is stop_at:
             break
     return out
+
+
+# ------------------------------------------------------------------------------
+#
+def iterated_container_mutations(func_info):
+    """[(for ast, mutating ast node)]: a `for x in E` whose body removes from /
+    adds to the very container expression E it iterates (E a plain access
+    path, not a copy such as list(E) / E[:] / sorted(E)) and then continues to
+    iterate: elements are skipped (remove) or visited again (insert)"""
+    from .cfg import cfg_of
+    out = []
+    g = cfg_of(func_info)
+    smap = stmt_node_map(g)
+    for n in g.nodes:
+        if n.kind != 'for' or not is_path(n.ast.iter):
+            continue
+        it = unparse(n.ast.iter)
+        body = g.loop_body[n.id]
+        for m in g.stmt_nodes():
+            if m.id not in body or m.kind != 'stmt':
+                continue
+            hit = None
+            for c in calls_in(m.ast):
+                if isinstance(c.func, ast.Attribute) and c.func.attr in \
+                        ('remove', 'pop', 'insert', 'append', 'clear',
+                         'extend') and unparse(c.func.value) == it:
+                    hit = c
+            if isinstance(m.ast, ast.Delete):
+                for t in m.ast.targets:
+                    if isinstance(t, ast.Subscript) and \
+                            unparse(t.value) == it:
+                        hit = m.ast
+            if hit is None:
+                continue
+            # does the loop go on iterating after the mutation?
+            goes_on = False
+            for e in g.succ[m.id]:
+                if e.label == 'exc':
+                    continue
+                seen = g.reachable(e.dst, skip_nodes={n.id}) | {e.dst}
+                if any(ed.dst == n.id and ed.back for x in seen | {m.id}
+                       for ed in g.succ[x]):
+                    goes_on = True
+            if goes_on:
+                out.append((n.ast, hit))
+    return out
